@@ -75,10 +75,22 @@ pub fn gen(prop: &str, tier: &str, seed: u64, out: &mut Vec<String>) {
                 }
             }
             let max_len = if th { 600 } else { 72 };
-            for len in 1..=max_len {
-                for x in 0..len {
+            // nodes inside AND outside the tree described by `len` (a node of a larger tree
+            // mapped into a truncated one), plus len = 0
+            for len in 0..=max_len {
+                for x in 0..(2 * len + 9) {
                     out.push(format!("noderp {x} {len}"));
                 }
+            }
+            for _ in 0..if th { 20_000 } else { 3_000 } {
+                let x = random_node(&mut r);
+                let len = match r.below(4) {
+                    0 => random_node(&mut r),
+                    1 => x >> r.below(12),
+                    2 => (x >> r.below(40)).saturating_add(r.below(5)),
+                    _ => x.saturating_add(r.below(9)).saturating_sub(4),
+                };
+                out.push(format!("noderp {x} {len}"));
             }
         }
         "C12" | "C13" => {
